@@ -149,6 +149,8 @@ impl RankSupport {
         let (word, offset) = bits::split_offset(index);
 
         // Rank at the start of the block and relative ranks at the start of the words.
+        #[cfg(feature = "verif_hooks")]
+        if block >= self.samples.len() { panic!("VERIF-OOB rank_sample({}) with {} blocks", block, self.samples.len()); }
         let (block_start, relative_ranks) = *self.samples.get_unchecked(block);
 
         // Transform the absolute word index into a relative word index within the block.
